@@ -35,4 +35,6 @@ else
   build
 fi
 export VSIM_SCRATCH="${VSIM_SCRATCH:-/dev/shm}"
+# scratch directories of workers that were killed (watchdog, crash triage) stay behind: drop what has not been touched for 2 h
+find "$VSIM_SCRATCH" -maxdepth 1 -name 'vsim-*' -mmin +120 -exec rm -rf {} + 2>/dev/null
 VSIM_ARGS="$*" exec bin/vsim.test -test.run '^TestVsim$' -test.timeout 0
